@@ -130,11 +130,23 @@ impl Check for TemplateCheck {
         format!("C16/{}", TEMPLATE_NAMES[self.0])
     }
     fn classes(&self) -> &'static [&'static str] {
-        &["iterations >= 3", "dimension 1", "single-solution / minimum-size population", "zero iterations"]
+        &["iterations >= 3", "dimension 1", "single-solution / minimum-size population", "zero iterations", "composite termination condition (target on the best value / optimum reached)"]
     }
     fn oracle(&self, spec: &RunSpec) -> Outcome {
         let mut v = V16 { classes: 0 };
-        let r = dispatch(spec, &mut v);
+        // two runs in five use a composite termination condition that also makes exactly n passes: a never-reached
+        // target on the best objective value (only for templates that evaluate before their loop is first tested) or
+        // `!OptimumReached`
+        let evaluates_first = !matches!(self.0, 9 | 10 | 13 | 14 | 19 | 20);
+        let variant = match spec.seed % 5 {
+            1 if evaluates_first => 1,
+            2 => 2,
+            _ => 0,
+        };
+        if variant != 0 {
+            v.classes |= 16;
+        }
+        let r = crate::fixtures::run::dispatch_cond(spec, &mut v, variant);
         Outcome::new(spec.iters >= 3, v.classes, r)
     }
 }
